@@ -73,6 +73,8 @@ func ResolveUDPAddr(network, address string) (*UDPAddr, error) {
 }
 
 // DialUDP creates a simulated connected socket.
+//
+//go:norace
 func DialUDP(network string, laddr, raddr *UDPAddr) (*UDPConn, error) {
 	nw := Net
 	if raddr == nil {
@@ -87,7 +89,7 @@ func DialUDP(network string, laddr, raddr *UDPAddr) (*UDPConn, error) {
 		laddr = &UDPAddr{IP: net.IPv4(127, 0, 0, 1), Port: 40000 + len(nw.Conns)}
 	}
 	c := &UDPConn{ID: len(nw.Conns), local: laddr, remote: raddr, nw: nw}
-	nw.Conns = append(nw.Conns, c)
+	nw.Conns = simrt.AppendNR(nw.Conns, c)
 	return c, nil
 }
 
@@ -133,6 +135,8 @@ func (c *UDPConn) Remote() string {
 }
 
 // Write sends one datagram.
+//
+//go:norace
 func (c *UDPConn) Write(b []byte) (int, error) {
 	simrt.Point(simrt.OpNet, unsafe.Pointer(c))
 	nw := c.nw
@@ -146,18 +150,18 @@ func (c *UDPConn) Write(b []byte) (int, error) {
 	}
 	if c.closed {
 		d.Err = "use of closed network connection"
-		nw.Log = append(nw.Log, d)
+		nw.Log = simrt.AppendNR(nw.Log, d)
 		return 0, c.opErr("write", net.ErrClosed)
 	}
 	if nw.SendFault != nil {
 		if err := nw.SendFault(c, c.Sent, len(b)); err != nil {
 			d.Err = err.Error()
 			nw.Faults++
-			nw.Log = append(nw.Log, d)
+			nw.Log = simrt.AppendNR(nw.Log, d)
 			return 0, c.opErr("write", err)
 		}
 	}
-	nw.Log = append(nw.Log, d)
+	nw.Log = simrt.AppendNR(nw.Log, d)
 	return len(b), nil
 }
 
@@ -170,6 +174,8 @@ func (c *UDPConn) Read(b []byte) (int, error) {
 }
 
 // Close closes the socket.
+//
+//go:norace
 func (c *UDPConn) Close() error {
 	simrt.Point(simrt.OpNet, unsafe.Pointer(c))
 	if c.closed {
@@ -181,6 +187,8 @@ func (c *UDPConn) Close() error {
 
 // ForceClose closes the socket from the harness (destination closed mid-run)
 // without a scheduling point.
+//
+//go:norace
 func (c *UDPConn) ForceClose() { c.closed = true }
 
 func (c *UDPConn) LocalAddr() Addr {
